@@ -84,6 +84,13 @@ def render_cb(prog, cbid, indent="    "):
             f"{indent}@property\n{indent}def {name}(self):\n"
             f"{indent}    return SIM.cb({full!r}, self, {{}}, {grp!r})\n"
         )
+    if meta.get("static"):
+        # a staticmethod: the same plain function whichever listener object of the class it is taken from
+        if meta.get("async"):
+            return (f"{indent}@staticmethod\n{indent}async def {name}(**kw):\n"
+                    f"{indent}    return await SIM.acb({full!r}, kw.get('machine'), {{'kw': kw}}, {grp!r})\n")
+        return (f"{indent}@staticmethod\n{indent}def {name}(**kw):\n"
+                f"{indent}    return SIM.cb({full!r}, kw.get('machine'), {{'kw': kw}}, {grp!r})\n")
     deco = f"{indent}@_sim_deco\n" if meta.get("wrapped") else ""
     if meta.get("noself") and [(q["name"], q["kind"]) for q in meta.get("sig", [])] == [("args", "var"), ("kw", "varkw")]:
         # a method that takes the instance through ``*args`` (catch-all listener methods, hand-written
